@@ -10,7 +10,7 @@ from sa.cf import cfg_of
 from sa.pm import FuncInfo, call_name, norm, self_attr, walk_local_ordered
 from sa.report import Ob, rule
 
-from .common import attr_stores, ob, strip_ret, traces, xnorm
+from .common import attr_stores, ob, single_return_expr as single_return_expr_, strip_ret, traces, xnorm
 from .common import expand as expand_
 
 QH = 'zeroconf._handlers.query_handler.QueryHandler'
@@ -343,6 +343,27 @@ def fmt(ctx: Any) -> List[Ob]:
                 dst = {x[1:] for t in oc_tx for x in t if isinstance(x, tuple) and x[0] == 'DST'}
                 want_dst = ('192.0.2.7' if given else (grp6 if v6 else grp4), port_v or mport)
                 obs.append(ob(R, tx, f'address {"given" if given else "not given"}, {"IPv6" if v6 else "IPv4"} socket, port {port_v or "not given"}', f'the datagram is handed to the socket for {want_dst}', dst == {want_dst}, f'destinations on the feasible paths: {sorted(map(str, dst))}; undecided {und_tx}'))
+    # `on the receiving socket`: when a transport is handed to the sender, the datagrams leave through that transport and no other
+    snd = prog.func('zeroconf._core.Zeroconf.async_send')
+    p_tr = next((p_ for p_ in snd.params if p_ == 'transport'), None)
+    if p_tr is None:
+        raise AnalysisError('anchor vanished: transport parameter of Zeroconf.async_send')
+    loops_tx = [lp for lp in walk_local_ordered(snd.node) if isinstance(lp, ast.For) and any(isinstance(c_, ast.Call) and tx is not None and call_name(c_) == tx.name for c_ in ast.walk(lp))]
+    loops_tx = [lp for lp in loops_tx if not any(inner is not lp and inner in loops_tx for inner in ast.walk(lp))]  # the innermost
+    ok_tr, why_tr = False, 'no loop that hands the datagrams to the transmit primitive'
+    for lp in loops_tx:
+        it = lp.iter
+        for given, addr_v in ((True, '192.0.2.7'), (True, None), (False, None)):
+            v_ = fd.Evaluator(prog, snd.module, {p_tr: 'RECEIVING' if given else None, 'addr': addr_v, f'{snd.params[0]}.engine.senders': ['S1', 'S2']}).ev(expand_(snd, it))
+            want_v = ['RECEIVING'] if given else ['S1', 'S2']
+            if v_ is fd.UNKNOWN or list(v_) != want_v:
+                ok_tr, why_tr = False, f'transport {"given" if given else "not given"}, address {addr_v}: the datagrams go through {v_!r}'
+                break
+        else:
+            ok_tr, why_tr = True, ''
+            continue
+        break
+    obs.append(ob(R, snd, loops_tx[0].iter if loops_tx else 'transports', 'a reply for which the receiving transport is given leaves through that transport only; otherwise through every sender', ok_tr, why_tr))
     uni = prog.func('zeroconf._handlers.answers.construct_outgoing_unicast_answers')
     c = next(c for f, c in sites if f is uni)
     obs.append(ob(R, uni, c, 'the unicast reply carries the id of the query', len(c.args) == 3 and norm(c.args[2]) == uni.params[3]))
@@ -371,6 +392,52 @@ def fmt(ctx: Any) -> List[Ob]:
         g = prog.func(QR + '.' + nm)
         calls = [c for c in walk_local_ordered(g.node) if isinstance(c, ast.Call) and call_name(c) == 'async_get_unique']
         obs.append(ob(R, g, calls[0] if calls else nm, 'the sighting consulted is the cache entry equal to the record being answered', len(calls) == 1 and [norm(a) for a in calls[0].args] == [g.params[1]]))
+    # `within a quarter of its TTL`, exactly: the test either is the record's own is_recent(arrival time) (normalised under
+    # C05.LIFETIME to created + 250*ttl - now > 0) or normalises to that form itself; a whole-second quarter (ttl // 4) ends the
+    # unicast-only window up to 750 ms early, and for TTLs below 4 s there is none
+    gq = prog.func(QR + '._has_mcast_within_one_quarter_ttl')
+    gme, grec = gq.params[0], gq.params[1]
+    okq, whyq = False, ''
+    try:
+        eq = single_return_expr_(gq)
+    except AnalysisError as e_:
+        eq, whyq = None, str(e_)
+    if eq is not None:
+        parts = [eq]
+        if isinstance(eq, ast.Call) and norm(eq.func) == 'bool' and len(eq.args) == 1:
+            parts = [eq.args[0]]
+        if isinstance(parts[0], ast.BoolOp) and isinstance(parts[0].op, ast.And):
+            parts = list(parts[0].values)
+        timing = [x for x in parts if not (isinstance(x, ast.Compare) and any(isinstance(o, (ast.Is, ast.IsNot)) for o in x.ops)) and not (isinstance(x, ast.UnaryOp) and isinstance(x.operand, ast.Compare) and any(isinstance(o, (ast.Is, ast.IsNot)) for o in x.operand.ops))]
+        if len(timing) == 1:
+            t_ = timing[0]
+            if isinstance(t_, ast.Call) and call_name(t_) == 'is_recent' and len(t_.args) == 1 and self_attr(t_.args[0], gme) == '_now':
+                okq = True
+            else:
+                try:
+                    def qsym(x: ast.AST) -> Optional[str]:
+                        if self_attr(x, gme) == '_now':
+                            return 'NOW'
+                        if isinstance(x, ast.Attribute) and x.attr == 'created':
+                            return 'CREATED'
+                        if isinstance(x, ast.Attribute) and x.attr == 'ttl':
+                            return 'TTL'
+                        return None
+
+                    envq: Dict[str, Any] = {}
+                    for st_ in walk_local_ordered(gq.node):
+                        if isinstance(st_, ast.Assign) and isinstance(st_.targets[0], ast.Name):
+                            try:
+                                envq[st_.targets[0].id] = lf.poly(prog, gq.module, st_.value, qsym, envq)
+                            except lf.NotLinear:
+                                pass
+                    okq = lf.same_cmp(lf.comparison(prog, gq.module, t_, qsym, envq), lf.parse_cmp('0 < CREATED + 250*TTL - NOW'))
+                    whyq = '' if okq else f'the test is `{norm(t_)[:80]}`'
+                except lf.NotLinear as e_:
+                    whyq = f'not a linear form of the creation time, the TTL and the arrival time: {e_}'
+        else:
+            whyq = f'{len(timing)} timing conditions'
+    obs.append(ob(R, gq, eq if eq is not None else '_has_mcast_within_one_quarter_ttl', 'a record counts as recently multicast exactly while now - created < 250 ms x TTL (a quarter of the TTL, no rounding)', okq, whyq))
     # the echoed id and questions are those of the FIRST packet of the query: the list handed to the handler keeps arrival
     # order -- the deferred packets as they came, the packet that completes the query appended last
     rq = prog.func('zeroconf._listener.AsyncListener._respond_query')
